@@ -81,7 +81,7 @@ def v1_inputs(rng, tier, k=None):
 
 class C01(Prop):
     id = "C01"
-    required = ["C01.bytes_accept_iff_partial", "C01.str_accept_iff_partial"]
+    required = ["C01.bytes_accept_iff", "C01.str_accept_iff", "C01.bytes_accept_iff_partial", "C01.str_accept_iff_partial", "C01.accepted_header_facts"]
     rule = ("grammar-directed valid lines (distinct source/destination), single-element mutations, every line ending, every prefix, all token strings up to "
             "k tokens, lengths around 107; both entry points; non-trivial = distinct accepted lines with source != destination plus rejected lines one edit away from an accepted one")
 
@@ -138,7 +138,7 @@ class C01(Prop):
 
 class C03(Prop):
     id = "C03"
-    required = ["C03.parseBytes_no_panic", "C03.parseStr_no_panic", "C03.v2_parse_no_panic", "C03.tlv_next_no_panic", "C03.tlv_count_bound"]
+    required = ["C03.parseBytes_no_panic", "C03.parseStr_no_panic", "C03.v2_parse_no_panic", "C03.auto_parse_no_panic", "C03.v1_accessors_no_panic", "C03.v2_accessors_no_panic", "C03.tlv_next_no_panic", "C03.tlv_count_bound", "C03.tlv_progress"]
     rule = ("every generator of C01/C02/C11 through every entry point and accessor, in builds with and without overflow checks; multi-byte characters adjacent to CR; "
             "non-trivial = distinct inputs that reach a checked primitive at its boundary (CR last, CR + lead byte, cut = len, length = family size)")
 
@@ -274,7 +274,7 @@ class C04(Prop):
 
 class C05(Prop):
     id = "C05"
-    required = ["C05.v2_prefix_incomplete", "C05.v1_bytes_prefix_incomplete", "C05.auto_prefix_incomplete", "C05.flags", "C05.streaming_v2"]
+    required = ["C05.v2_prefix_incomplete", "C05.v1_bytes_prefix_incomplete", "C05.v1_str_prefix_incomplete", "C05.auto_prefix_incomplete", "C05.flags", "C05.streaming_v2", "C05.streaming_v1"]
     rule = ("every cut 0..len-1 of generated accepted headers (ASCII v1 lines, v2 headers) through the version's entry points and the auto-detecting one; "
             "non-trivial = distinct (header shape, cut position class)")
 
@@ -399,7 +399,7 @@ class C06(Prop):
 
 class C08(Prop):
     id = "C08"
-    required = ["C08.dec_roundtrip", "C08.ipv4_roundtrip", "C08.format_parses_back_tcp4", "C08.display_is_header"]
+    required = ["C08.dec_roundtrip", "C08.ipv4_roundtrip", "C08.ipv6_roundtrip", "C08.format_is_line", "C08.format_length", "C08.format_parses_back", "C08.format_parses_back_tcp4", "C08.format_injective", "C08.display_is_header"]
     rule = ("all 256 zero/non-zero segment patterns x fillers, all 2^16 ports (as source or destination), random IPv4/IPv6 pairs with source != destination, "
             "IPv4-mapped forms; formatted text parsed back through the four text entry points; non-trivial = distinct address pairs with a zero-run pattern not seen before")
 
@@ -466,7 +466,7 @@ C12_EXPECT = {
 
 class C12(Prop):
     id = "C12"
-    required = ["C12.v2_version", "C12.v2_command", "C12.v2_family", "C12.v2_transport", "C12.v2_length", "C12.v2_signature"]
+    required = ["C12.v2_version", "C12.v2_command", "C12.v2_family", "C12.v2_transport", "C12.v2_length", "C12.v2_signature", "C12.v2_terminal", "C12.v1_keyword", "C12.v1_protocol", "C12.v1_source_address", "C12.v1_destination_address", "C12.v1_source_port", "C12.v1_destination_port", "C12.v1_suffix", "C12.v1_limit_and_utf8"]
     rule = ("well-formed lines x element x invalid-replacement table (SP/CR-free replacements), CR followed by every non-LF class, lines over 107 bytes, invalid UTF-8; "
             "all invalid nibble values x valid control pairs, all too-small lengths, every altered signature byte; non-trivial = distinct (element, replacement, error) triples")
 
